@@ -1,5 +1,6 @@
 """C12 -- TLE text round-trips and is validated (DESIGN.md section C12)."""
 import ast
+import re
 import importlib
 import itertools
 import string
@@ -520,6 +521,75 @@ def numeric_group():
     return obs, {"paths": len(found)}
 
 
+# --------------------------------------------------------------------------- 'decimal point assumed' fields (ndotdot/6, B*)
+_PH = [chr(0xE000 + i) for i in range(6)]          # placeholders of the five mantissa digits and the exponent digit
+
+
+def _exp_text(ms, es):
+    return ms + "".join(_PH[:5]) + es + _PH[5]
+
+
+def expfield_group():
+    """the real `_float` is run on the 8 columns of a 'decimal point assumed' field: [ +-]DDDDD[+-]D.  The two sign characters
+    fix every branch of its string handling, so each of the 3 x 2 sign shapes is one execution with the six digits symbolic
+    (placeholders in the text; the module's `float` is replaced by a reader that turns the assembled literal into a term over
+    the digit variables, and refuses what Python's float() would refuse): the value is
+    +-0.DDDDD x 10^(+-D) for all 10^6 digit contents of the shape"""
+    tle = importlib.import_module(TLE)
+    D = [z3.Int(f"D{i}") for i in range(5)]
+    E = z3.Int("E")
+    rng = [z3.And(x >= 0, x <= 9) for x in D + [E]]
+
+    def p10(e, neg):
+        t = z3.RealVal(1)
+        for k in range(9, -1, -1):
+            t = z3.If(e == k, z3.Q(1, 10 ** k) if neg else z3.RealVal(10 ** k), t)
+        return t
+
+    def reader(txt):
+        mt2 = re.fullmatch(r"([+-]?)\.([%s]+)e([+-]?)([%s])" % ("".join(_PH[:5]), _PH[5]), txt)
+        if not mt2:
+            raise ValueError(f"could not convert string to float: {txt!r}")
+        sg, digs, esg, _ = mt2.groups()
+        val_ = sum(z3.ToReal(D[_PH.index(ch)]) / 10 ** (k + 1) for k, ch in enumerate(digs))
+        val_ = val_ * p10(E, esg == "-")
+        return -val_ if sg == "-" else val_
+    obs = []
+    saved = tle.__dict__.get("float")
+    try:
+        tle.float = reader
+        for ms in (" ", "+", "-"):
+            for es in ("+", "-"):
+                name = f"expfield/{'bpm'[' +-'.index(ms)]}{'pm'['+-'.index(es)]}"
+                text = _exp_text(ms, es)
+                want = sum(z3.ToReal(D[k]) / 10 ** (k + 1) for k in range(5)) * p10(E, es == "-")
+                want = -want if ms == "-" else want
+                s = z3.Solver()
+                s.add(*rng)
+                try:
+                    got = tle._float(text)
+                    s.add(got != want)
+                    err = None
+                except Exception as e:  # noqa
+                    err = f"{type(e).__name__}: {e}"      # any digits will do: decided by the replay
+                obs.append(dict(name=name, smt2=s.sexpr(), trivial=False, expect="unsat", vars=[f"D{i}" for i in range(5)] + ["E"],
+                                timeout=30, solver="z3",
+                                desc=f"_float on the field shape {ms!r}DDDDD{es!r}D (mantissa sign {ms!r}, exponent sign {es!r}), every digit "
+                                     f"content: value {'-' if ms == '-' else '+'}0.DDDDD x 10^({es}D)"
+                                     + (f" -- the real code raised {err}" if err else ""),
+                                replay={"kind": "expfield", "ms": ms, "es": es}, n_constraints=len(s.assertions()), tags=["numeric"]))
+    finally:
+        if saved is None:
+            del tle.float
+        else:
+            tle.float = saved
+    tw = z3.Solver()
+    tw.add(*rng)
+    obs.append(dict(name="expfield/twin", smt2=tw.sexpr(), trivial=False, expect="sat", vars=[], timeout=10, solver="z3", desc="twin",
+                    replay=None, n_constraints=len(rng), tags=["twin"]))
+    return obs, {"paths": 6}
+
+
 def pivot_group():
     """the two-digit years of a TLE (epoch, international designator): the expression `year += A if <test> else B` of
     Tle.__init__ is translated from the AST and compared, for every yy in 0..99, with the format's rule 57..99 -> 19yy,
@@ -572,7 +642,8 @@ def _with_checksum(line68):
 
 
 def groups(tier):
-    g = {"layout": layout_group, "checksum": checksum_group, "corruption": corruption_group, "pivot": pivot_group, "numeric": numeric_group}
+    g = {"layout": layout_group, "checksum": checksum_group, "corruption": corruption_group, "pivot": pivot_group, "numeric": numeric_group,
+         "expfield": expfield_group}
     for l1, l2 in ((69, 69), (68, 69), (70, 69), (69, 68), (69, 70)):
         g[f"validity{l1}x{l2}"] = validity_group(l1, l2)
     for n in range(1, bounds(tier)["from_string_lines"] + 1):
@@ -636,6 +707,19 @@ def replay(ob, model):
         except Exception as e:  # noqa
             bad, detail = True, f"{fld} = {val_!r}: {type(e).__name__}: {e}"
         return {"reproduced": bool(bad), "signature": f"TLE numeric field {fld}", "detail": detail, "inputs": {fld: val_}}
+    if kind == "expfield":
+        from decimal import Decimal
+        from beyond.io.tle import _float
+        digs = "".join(str(int(model.get(f"D{i}", 1 if i == 0 else 0))) for i in range(5))
+        ex = str(int(model.get("E", 1)))
+        text = rp["ms"] + digs + rp["es"] + ex
+        want = float(Decimal(("-" if rp["ms"] == "-" else "") + "0." + digs + "e" + rp["es"] + ex))
+        try:
+            got = _float(text)
+            bad, detail = got != want, f"_float({text!r}) = {got!r}, the field says {want!r}"
+        except Exception as e:  # noqa
+            bad, detail = True, f"_float({text!r}) raises {type(e).__name__}: {e}"
+        return {"reproduced": bool(bad), "signature": "TLE decimal-point-assumed field", "detail": detail, "inputs": {"field": text}}
     if kind == "pivot":
         which = rp.get("which")
         if which == "missing":
